@@ -37,6 +37,22 @@ Proof.
   cbn [app splitlines]. rewrite (IH H2).
   destruct (is_linebreak c); [discriminate|reflexivity].
 Qed.
+Lemma universal_nl_sep l c s : no_linebreak l = true -> byte_eqb c x0d = false ->
+  universal_nl (l ++ c :: s) = l ++ c :: universal_nl s.
+Proof.
+  unfold no_linebreak. intros H Hc. induction l as [|d l IH].
+  - cbn [app universal_nl]. rewrite Hc. reflexivity.
+  - cbn [forallb] in H. apply andb_prop in H. destruct H as [H1 H2].
+    cbn [app universal_nl]. rewrite (nolb_nocr d H1), (IH H2). reflexivity.
+Qed.
+Lemma splitlines_sep l c s : no_linebreak l = true -> is_linebreak c = true ->
+  splitlines (l ++ c :: s) = l :: splitlines s.
+Proof.
+  unfold no_linebreak. intros H Hc. induction l as [|d l IH].
+  - cbn [app splitlines]. rewrite Hc. reflexivity.
+  - cbn [forallb] in H. apply andb_prop in H. destruct H as [H1 H2].
+    cbn [app splitlines]. rewrite (IH H2). destruct (is_linebreak d); [discriminate|reflexivity].
+Qed.
 Lemma lines_of_rendered (ls : list str) : forallb no_linebreak ls = true ->
   splitlines (universal_nl (concat (map (fun l => l ++ [x0a]) ls))) = ls.
 Proof.
@@ -266,6 +282,12 @@ Proof.
   - rewrite (universal_nl_line _ _ H). apply splitlines_line. exact H.
   - rewrite (universal_nl_crlf _ _ H). apply splitlines_line. exact H.
   - rewrite (universal_nl_cr _ _ H (Hs eq_refl)). apply splitlines_line. exact H.
+  - rewrite (universal_nl_sep l x0b s H eq_refl). apply splitlines_sep; [exact H|reflexivity].
+  - rewrite (universal_nl_sep l x0c s H eq_refl). apply splitlines_sep; [exact H|reflexivity].
+  - rewrite (universal_nl_sep l x1c s H eq_refl). apply splitlines_sep; [exact H|reflexivity].
+  - rewrite (universal_nl_sep l x1d s H eq_refl). apply splitlines_sep; [exact H|reflexivity].
+  - rewrite (universal_nl_sep l x1e s H eq_refl). apply splitlines_sep; [exact H|reflexivity].
+  - rewrite (universal_nl_sep l x85 s H eq_refl). apply splitlines_sep; [exact H|reflexivity].
 Qed.
 Lemma L_last l : no_linebreak l = true -> filter nonskipped (L l) = filter nonskipped [l].
 Proof.
